@@ -24,6 +24,15 @@
 (* the app's parent) on sys.path, loads exactly that file for DotPath -    *)
 (* the oracle for "the dotted path Python would use to import that file".  *)
 (*                                                                         *)
+(* Searched says WHICH directories are component directories under a       *)
+(* configuration: every candidate root carries `src`, the places where the *)
+(* configuration mentions it, and cfg says whether COMPONENTS.dirs /        *)
+(* COMPONENTS.app_dirs are given at all.  A given list may be empty, which *)
+(* is a different configuration from a list that is not given ("Set to     *)
+(* empty list to disable global components directories" / "... app-level   *)
+(* components", docs/reference/settings).  Files of directories that exist *)
+(* but are not searched must not be returned.                              *)
+(*                                                                         *)
 (* The last part names two deviations of the implementation so that a      *)
 (* failing case is classified as a known finding or as a new violation.    *)
 (***************************************************************************)
@@ -86,11 +95,39 @@ Loadable(tree, e) ==
   /\ Name(e) # "__init__.py" =>
        ~HasFile(tree, DirParts(e) \o <<Stem(Name(e)), "__init__.py">>)        \* a package of that name wins
 
+(* ---- which directories are searched ------------------------------------ *)
+\* r.src: sequence of mentions [in |-> "dirs" | "static" | "default", form |-> ...] (form = how the path is
+\*   written - str / Path / (prefix, path) tuple - and means nothing here):
+\*     "dirs"    the directory is an element of COMPONENTS.dirs
+\*     "static"  the directory is an element of STATICFILES_DIRS
+\*     "default" the directory is BASE_DIR/components
+\*   a directory root without mentions is just a directory of the project.  App roots (kind "app") are
+\*   <app package>/<name>, name = the last element of the prefix.
+\* cfg.dirs \in {"unset", "set"}: COMPONENTS.dirs is not given / given; the given list is exactly the roots
+\*   with a "dirs" mention, so it is EMPTY when there is none.  Likewise STATICFILES_DIRS is the list of roots
+\*   with a "static" mention (Django's default: empty).
+\* cfg.appdirs \in {"unset", "set"}, cfg.appnames the given list of names (may be empty).
+\*   - COMPONENTS.dirs given: exactly its elements (none for the empty list), whatever STATICFILES_DIRS says;
+\*   - not given: the legacy STATICFILES_DIRS when that is non-empty, else the default BASE_DIR/components;
+\*   - app directories: <app>/<name> for every name of app_dirs (default <<"components">>; none for <<>>).
+In(r, w) == \E i \in DOMAIN r.src : r.src[i].in = w
+StaticGiven(roots) == \E k \in DOMAIN roots : roots[k].kind = "dirs" /\ In(roots[k], "static")
+AppNames(cfg) == IF cfg.appdirs = "unset" THEN {"components"} ELSE {cfg.appnames[i] : i \in DOMAIN cfg.appnames}
+Searched(cfg, roots, k) ==
+  LET r == roots[k] IN
+  IF r.kind = "app" THEN r.prefix[Len(r.prefix)] \in AppNames(cfg)
+  ELSE \/ cfg.dirs = "set" /\ In(r, "dirs")
+       \/ cfg.dirs = "unset" /\ In(r, "static")
+       \/ cfg.dirs = "unset" /\ ~StaticGiven(roots) /\ In(r, "default")
+Active(cfg, roots) == {k \in DOMAIN roots : Searched(cfg, roots, k)}
+\* a configuration that can be written down: a "dirs" mention needs COMPONENTS.dirs to be given
+CfgWellFormed(cfg, roots) == (\E k \in DOMAIN roots : roots[k].kind = "dirs" /\ In(roots[k], "dirs")) => cfg.dirs = "set"
+
 (* ---- expected result of get_component_files(sfx) over several roots ---- *)
 \* roots: sequence of root records; trees: sequence of trees (same length)
 Row(k, root, e) == [k |-> k, parts |-> e.parts, dot |-> DotPath(root, e), cmpdot |-> DotDetermined(e)]
-Expected(roots, trees, sfx) ==
-  UNION {{Row(k, roots[k], e) : e \in {x \in trees[k] : Selected(x, sfx)}} : k \in DOMAIN roots}
+Expected(cfg, roots, trees, sfx) ==
+  UNION {{Row(k, roots[k], e) : e \in {x \in trees[k] : Selected(x, sfx)}} : k \in Active(cfg, roots)}
 
 (* ---- named deviations of the implementation ---------------------------- *)
 \* Dev_DirectoryReturned: the glob result is not restricted to files, so a public directory whose
@@ -101,13 +138,13 @@ AllEntries(tree) == tree \cup ImpliedDirs(tree)
 DevDirSelected(e, sfx) == HasSuffix(Name(e), sfx) /\ Public(e)
 \* Dev_GlobMetaInPath: the directory path is pasted into the glob pattern unescaped, so a root whose
 \* absolute path contains a glob character class yields nothing.  root.globmeta marks such roots.
-DevExpected(roots, trees, sfx) ==
+DevExpected(cfg, roots, trees, sfx) ==
   UNION {{Row(k, roots[k], e) : e \in {x \in AllEntries(trees[k]) : DevDirSelected(x, sfx)}} :
-           k \in {j \in DOMAIN roots : ~roots[j].globmeta}}
-DevKeysFor(roots, trees, sfx) ==
-  (IF \E k \in DOMAIN roots : \E x \in AllEntries(trees[k]) : x.kind = "dir" /\ DevDirSelected(x, sfx)
+           k \in {j \in Active(cfg, roots) : ~roots[j].globmeta}}
+DevKeysFor(cfg, roots, trees, sfx) ==
+  (IF \E k \in Active(cfg, roots) : \E x \in AllEntries(trees[k]) : x.kind = "dir" /\ DevDirSelected(x, sfx)
       /\ ~roots[k].globmeta
    THEN {"directory-matches-suffix:returned-as-file"} ELSE {})
-  \cup (IF \E k \in DOMAIN roots : roots[k].globmeta /\ \E x \in trees[k] : Selected(x, sfx)
+  \cup (IF \E k \in Active(cfg, roots) : roots[k].globmeta /\ \E x \in trees[k] : Selected(x, sfx)
         THEN {"root-path-has-glob-metachar:nothing-found"} ELSE {})
 =============================================================================
